@@ -294,26 +294,33 @@ def _scenarios(pid, tier, rng):
     k = (lambda a, b: a if q else b)
     if pid == "C04":
         av = sorted(AVERAGES)
-        return (fam_kinds(rng, pid, av, k(110, 700), rvs=(4, 4, 2, 0, 5, 3, 8))
+        return (fam_kinds(rng, pid, av, k(110, 700), rvs=(4, 4, 2, 0, 5, 3, 8), tf_share=0.2)
                 + fam_kinds(rng, pid + "z", av, k(60, 400), styles=ZEROISH, rvs=(4, 0, 0, 1, 2))
                 + fam_chain(rng, pid, k(80, 500)))
     if pid == "C05":
-        return fam_kinds(rng, pid, sorted(C05_KINDS), k(240, 1500))
+        return (fam_kinds(rng, pid, sorted(C05_KINDS), k(200, 1300), tf_share=0.25)
+                + fam_chain(rng, pid, k(50, 300), targets=("STDEV", "BBANDS", "KC", "STDEVTHRES", "STDEV", "BBANDS")))
     if pid == "C06":
-        return fam_kinds(rng, pid, sorted(C06_KINDS), k(240, 1500))
+        return (fam_kinds(rng, pid, sorted(C06_KINDS), k(200, 1300), tf_share=0.25)
+                + fam_chain(rng, pid, k(50, 300), targets=("RSI", "MACD", "ROC", "STOCH", "TSI")))
     if pid == "C09":
-        return (fam_kinds(rng, pid, ALL_KINDS, k(260, 1600), styles=DEGENERATE, twins=())
-                + fam_kinds(rng, pid, ALL_KINDS, k(80, 500), styles=DEGENERATE, twins=(), tf_share=1.0))
+        return (fam_kinds(rng, pid, ALL_KINDS, k(220, 1400), styles=DEGENERATE, twins=())
+                + fam_kinds(rng, pid, ALL_KINDS, k(80, 500), styles=DEGENERATE, twins=(), tf_share=1.0)
+                + fam_chain(rng, pid, k(60, 400), twins=(),
+                            targets=("STDEV", "BBANDS", "KC", "STDEVTHRES", "RSI", "MACD", "ROC", "STOCH", "TSI",
+                                     "SMA", "EMA", "RMA", "WMA", "HMA")))
     if pid == "C10":
         return fam_kinds(rng, pid, ALL_KINDS, k(300, 1800), twins=(), tf_share=0.3)
     if pid == "C01":
         return (fam_kinds(rng, pid, ALL_KINDS, k(200, 1200), tf_share=0.6)
-                + fam_chain(rng, pid, k(40, 200)) + fam_amorph(rng, pid, k(40, 240)))
+                + fam_chain(rng, pid, k(40, 200)) + fam_amorph(rng, pid, k(40, 240))
+                + fam_hexital(rng, pid, k(50, 300), twins=("batch",)))
     if pid == "C02":
         return (fam_kinds(rng, pid, ALL_KINDS, k(260, 1500), twins=("longer",), tf_share=0.5)
                 + fam_amorph(rng, pid, k(40, 240), twins=("longer",))
                 + fam_chain(rng, pid, k(40, 240), targets=("STDEV", "TSI", "SMA", "EMA", "RSI", "BBANDS", "ROC"),
-                            reverse=True, twins=()))
+                            reverse=True, twins=())
+                + fam_hexital(rng, pid, k(40, 240), twins=("longer",)))
     if pid == "C03":
         return fam_manager(rng, pid, k(270, 1800)) + fam_disorder(rng, pid, k(30, 200))
     if pid == "C12":
@@ -670,7 +677,7 @@ def fam_reads(rng, pid, count, forms=("candle",), touches=True):
     return out
 
 
-def fam_hexital(rng, pid, count):
+def fam_hexital(rng, pid, count, twins=("standalone",)):
     """Hexital members against standalone twins.  Timeframes inside one Hexital stay within a
     factor of 6 of each other and the stream is spaced on the smallest, so every timeframe
     sees several buckets and gap filling stays small."""
@@ -685,6 +692,10 @@ def fam_hexital(rng, pid, count):
         base_tf = rng.choice([None, None, None, ladder[0]])
         cfgs = _uniq([rand_cfg(rng, rng.choice(ALL_KINDS), tf=rng.choice([None] + ladder))
                       for _ in range(nmem)])
+        if len(cfgs) >= 2 and rng.random() < 0.4:
+            shared = rng.choice(ladder)            # two members on one timeframe = one shared manager
+            cfgs[0].timeframe = cfgs[1].timeframe = shared
+            cfgs = _uniq(cfgs)
         for c in cfgs:
             c.extra = dict(c.extra, _tf_form=rng.choice(["upper", "upper", "lower", "enum"]))
         fill = bool(base_tf) and rng.random() < 0.3
@@ -693,6 +704,12 @@ def fam_hexital(rng, pid, count):
         secs = sorted(tf_seconds(x) for x in tfs if x)
         biggest = secs[-1] if secs else 60
         life = timedelta(seconds=biggest * rng.choice([12, 20])) if rng.random() < 0.15 else None
+        if pid != "C08":
+            # batch = incremental is not claimed under a lifespan (C15 owns it), and the two open C08
+            # findings (K01, K02) are kept inside the C08 check
+            life = None
+            if fill and any(c.timeframe and c.timeframe != base_tf for c in cfgs):
+                fill = False
         hexcfg = {"timeframe": base_tf, "fill": fill, "lifespan": life, "ctype": "HA" if ha else None}
         n = rng.randint(16, 22) if ha else rng.randint(20, 34)   # HA values double their denominator per candle
         small = next((x for x in ladder if x in tfs), None)
@@ -702,11 +719,14 @@ def fam_hexital(rng, pid, count):
         sc = hex_scenario(rng, f"{pid}/hex/{'+'.join(c.kind for c in cfgs)}/{t}", "hexital", cfgs, n,
                           # Heikin-Ashi chains stay exact (dyadic) only on integer prices
                           rng.choice(["mixed", "walk"] if ha else ["mixed", "walk", "decimal"]),
-                          twins=("standalone",), hexcfg=hexcfg,
+                          twins=twins, hexcfg=hexcfg,
                           tf=small, regular=regular,
                           pre_choices=(0, 1, 2, n), forms=[rng.choice(["obj", "dict", "settings"]) for _ in cfgs],
                           form=rng.choice(["candle", "candle", "dict"]))
-        sc["clause_props"] = {"exc": ["C08"], "stage": ["C08"], "def": ["C08"], "value": ["C08"]}
+        if pid == "C08":
+            sc["clause_props"] = {"exc": ["C08"], "stage": ["C08"], "def": ["C08"], "value": ["C08"]}
+        else:
+            sc["clause_props"] = {"exc": [pid], "stage": [pid]}
         if fill and sc["prog"][0][1] > 0 and any(c.timeframe and c.timeframe != base_tf for c in cfgs):
             # own scenario class: with Hexital-level gap filling the default candles a member's manager
             # is built from contain inserted candles, which a coarser member merges like trades
@@ -724,7 +744,14 @@ def fam_scale(rng, pid, count, hists=(60, 300)):
     computed readings and look-back must be the same"""
     out = []
     for t in range(count):
-        if t % 6 == 5:
+        if t % 6 == 4:
+            src = rand_cfg(rng, rng.choice(["RSI", "EMA", "SMA", "ATR"]))
+            live = src.build(standalone=False).name
+            tgt = rand_cfg(rng, rng.choice(["STOCH", "BBANDS", "STDEV", "TSI", "RSI", "SMA", "STDEVTHRES"]), inp=live)
+            tgt.extra = {"name_suffix": "on"}
+            sc = {"id": f"{pid}/scale/chain/{src.kind}>{tgt.kind}/{t}", "obj": "hex", "inds": [src, tgt], "hex": {},
+                  "member_forms": ["obj"] * 2}
+        elif t % 6 == 5:
             cfgs = _uniq([rand_cfg(rng, k) for k in rng.sample(ALL_KINDS, 5)])
             sc = {"id": f"{pid}/scale/hex/{t}", "obj": "hex", "inds": cfgs, "hex": {}, "member_forms": ["obj"] * len(cfgs)}
         else:
@@ -760,6 +787,17 @@ def fam_work(rng, pid, count):
                                    inp=live + side, p=rng.randint(2, 5))]
             sc = {"id": f"{pid}/none/{t}", "obj": "hex", "inds": cfgs, "hex": {}, "member_forms": ["obj"] * len(cfgs),
                   "names_fixed": True}
+            tf = None
+        elif t % 7 == 5:
+            # an indicator computed on another indicator's (late-starting) output
+            src = rand_cfg(rng, rng.choice(["RSI", "EMA", "SMA", "ATR", "ROC"]))
+            live = src.build(standalone=False).name
+            tgt = rand_cfg(rng, rng.choice(["STOCH", "BBANDS", "STDEV", "TSI", "RSI", "SMA", "EMA", "MACD", "STDEVTHRES"]),
+                           inp=live)
+            tgt.extra = {"name_suffix": "on"}
+            cfgs = [src, tgt]
+            sc = {"id": f"{pid}/chain/{src.kind}>{tgt.kind}/{t}", "obj": "hex", "inds": cfgs, "hex": {},
+                  "member_forms": ["obj"] * 2, "names_fixed": True}
             tf = None
         elif hexobj:
             cfgs = _uniq([rand_cfg(rng, k) for k in rng.sample(kinds, 4)])
